@@ -7,9 +7,7 @@ pub use rand_real::{distributions, seq, AsByteSliceMut, CryptoRng, Error, ErrorK
 pub mod rngs {
     pub use super::ThreadRng;
     pub use rand_real::rngs::{adapter, mock, SmallRng, StdRng};
-    /// OS entropy = the simulated world's entropy stream
-    pub type OsRng = super::ThreadRng;
-    pub type EntropyRng = super::ThreadRng;
+    pub use super::{EntropyRng, OsRng};
 }
 
 /// `rand::prelude` with the simulated `thread_rng` / `random` / `FromEntropy`
@@ -36,12 +34,52 @@ impl<R: SeedableRng> FromEntropy for R {
 #[derive(Clone, Debug, Default)]
 pub struct ThreadRng;
 
-impl ThreadRng {
-    /// `OsRng::new()` / `EntropyRng::new()` in rand 0.6
-    pub fn new() -> Result<ThreadRng, Error> {
-        Ok(ThreadRng)
+/// OS entropy = the simulated world's entropy stream (`OsRng::new()` is fallible in rand 0.6)
+#[derive(Clone, Debug, Default)]
+pub struct OsRng;
+
+impl OsRng {
+    pub fn new() -> Result<OsRng, Error> {
+        Ok(OsRng)
     }
 }
+
+#[derive(Clone, Debug, Default)]
+pub struct EntropyRng;
+
+impl EntropyRng {
+    pub fn new() -> EntropyRng {
+        EntropyRng
+    }
+}
+
+macro_rules! sim_rng {
+    ($t:ty, $who:expr) => {
+        impl RngCore for $t {
+            fn next_u32(&mut self) -> u32 {
+                let mut b = [0u8; 4];
+                dsim::entropy($who, &mut b);
+                u32::from_le_bytes(b)
+            }
+            fn next_u64(&mut self) -> u64 {
+                let mut b = [0u8; 8];
+                dsim::entropy($who, &mut b);
+                u64::from_le_bytes(b)
+            }
+            fn fill_bytes(&mut self, dest: &mut [u8]) {
+                dsim::entropy($who, dest);
+            }
+            fn try_fill_bytes(&mut self, dest: &mut [u8]) -> Result<(), Error> {
+                self.fill_bytes(dest);
+                Ok(())
+            }
+        }
+        impl CryptoRng for $t {}
+    };
+}
+
+sim_rng!(OsRng, "rand::OsRng");
+sim_rng!(EntropyRng, "rand::EntropyRng");
 
 pub fn thread_rng() -> ThreadRng {
     ThreadRng
